@@ -6,7 +6,10 @@ use crate::restion::Restion;
 use crate::WebsocketStream;
 
 use std::io::Write;
+#[cfg(not(humphrey_verif))]
 use std::time::Instant;
+#[cfg(humphrey_verif)]
+use humphrey::verif::time::Instant;
 
 /// Represents a WebSocket message.
 #[derive(Debug, Clone)]
